@@ -12,8 +12,23 @@ ENGINES = {
     },
 }
 
+ENGINES["endpoint"] = {
+    "pkg": "control",
+    "tags": "dae_stub_ebpf",
+    "test": "TestSimC13b",
+    "extra_files": {"control/zz_verif_hooks.go": "harness/control/hooks.go.txt"},
+    "instrument": [{"pkg": "control",
+                    "files": ["udp_endpoint_pool.go", "udp_conn_state_tracker.go", "control_plane_drain.go", "bpf_stub.go"],
+                    "replace": ["BpfMapBatchDelete=return verifBpfBatchDelete(m, keys)",
+                                "BpfMapBatchUpdate=return verifBpfBatchUpdate(m, keys, values, opts)"]}],
+    "harness": ["harness/control/endpoint_test.go"],
+    "quick_secs": 40, "thorough_secs": 500,
+    "probes": ["endpoint.generation-handover", "endpoint.reused", "endpoint.recreated-after-retire", "endpoint.negative-cache-hit",
+               "endpoint.closed-by-nat-expiry", "endpoint.retired-by-invalidation", "tuple.deleted", "tuple.deleted-after-shared-ownership"],
+}
+
 PROPS = {
-    "C13": {"engines": ["taskpool"]},
+    "C13": {"engines": ["taskpool", "endpoint"]},
 }
 
 # engines contributed by separately developed simulators
